@@ -50,15 +50,16 @@ theorem C03_json_closed_rpms (h : List RpmsArgs) : jsonRep (runRpms empty h) = t
   | nil => intro s hs; exact hs
   | cons a rest ih => intro s hs; exact ih _ (rpms_add_jsonRep s a hs)
 
-/-- the write/read/write cycle on ANY JSON-representable mapping -/
+/-- the write/read/write cycle on ANY JSON-representable mapping (e.g. one that was itself loaded) -/
 theorem C03_roundtrip_payload (k : Kind) (v0 : PyVal) (c : ComposeT) (p : PyVal) (hp : jsonRep p = true)
-    (hv : composeValidate c.toObj = .ok ()) (hn : composeValidate c.norm.toObj = .ok ()) :
+    (hv : composeValidate c.toObj = .ok ()) :
     ∃ rt, roundtrip k { version := v0, compose := c.toObj, payload := p } = .ok rt
       ∧ rt.reloaded.payload = PyVal.canon p
       ∧ PyVal.pyEq rt.reloaded.payload p = true
       ∧ rt.reloaded.compose = c.norm.toObj
       ∧ rt.reloaded.version = .str currentVersion
       ∧ rt.text2 = rt.text1 := by
+  have hn := composeValidate_norm c hv
   unfold roundtrip
   rw [dumpDoc_eq k v0 c p hv]
   simp only
@@ -80,7 +81,7 @@ theorem C03_roundtrip (k : Kind) (ops : List AddOp) (hargs : ∀ op ∈ ops, op.
       ∧ rt.reloaded.compose = c.norm.toObj
       ∧ rt.reloaded.version = .str currentVersion
       ∧ rt.text2 = rt.text1 :=
-  C03_roundtrip_payload k v0 c (runOps empty ops) (C03_json_closed ops hargs) hv (composeValidate_norm c hv)
+  C03_roundtrip_payload k v0 c (runOps empty ops) (C03_json_closed ops hargs) hv
 
 /-- the normalisation is the identity on the compose sections that a reader can produce: re-reading a re-read
 manifest changes nothing at all -/
